@@ -1,10 +1,12 @@
 import Driver.F64Drv
+import Driver.RunDrv
 /-! `ysgo-model`: reads case lines on stdin, prints the model's observation lines (id, index, observation) -/
 open Ysgo Ysgo.Drv
 
 def dispatch (stream : String) (c : S) : List String :=
   match stream with
   | "f64" => f64Case c
+  | "run" => runCase c
   | _ => ["UNKNOWN-STREAM"]
 
 partial def loop (h : IO.FS.Stream) (out : IO.FS.Stream) : IO Unit := do
